@@ -528,6 +528,13 @@ def fresh_result_programs():
         out.append('functie niets() { 0 }; stel t = %s; t[0] = "??"; niets(); stel u = %s; niets(); [u, t, lengte(u), lengte(t)]' % (p, p))
         out.append('stel r = []; stel i = 0; zolang i < 3 { stel t = %s; r = [r, t + ""]; t[0] = string(i); i += 1 }; [r, %s]' % (p, p))
         out.append('functie maak() { %s }; stel a = maak(); stel b = maak(); a[0] = "#"; [a, b, maak()]' % p)
+        out.append('stel a = %s; stel b = %s; a[0] = "#"; [a, b]' % (p, p))
+        out.append('stel a = %s; stel b = %s; stel c = %s; b[0] = "##"; [a, b, c, a == c]' % (p, p, p))
+    # two READS that yield the same character (from one text, from two texts, in a loop) are two values
+    for s0, i, j in [("hallo", 2, 3), ("aaa", 0, 2), ("banaan", 1, 3), ("xé€x", 0, 3), ("éé", 0, 1)]:
+        out.append('stel s = "%s"; stel x = s[%d]; stel y = s[%d]; x[0] = "L"; [x, y, s]' % (s0, i, j))
+        out.append('stel s = "%s"; stel t = "%s"; stel x = s[%d]; stel y = t[%d]; y[0] = "QQ"; [x, y, lengte(x)]' % (s0, s0, i, i))
+        out.append('stel s = "%s"; stel r = []; stel k = 0; zolang k < lengte(s) { r = [r, s[k]]; k += 1 }; stel e = r[1]; e[0] = "#"; [r, s[%d]]' % (s0, i))
     return out
 
 
@@ -570,4 +577,62 @@ def alias_multiplicity_programs():
         out.append('functie macht(x, n) { als n < 1 { antwoord 1.0 }; x * macht(x, n - 1) }; [macht(2.0, %d), "na", 0.125, macht(1.5, %d)]' % (r, r))
         out.append('functie diep(s, n) { als n < 1 { antwoord lengte(s) }; diep(s, n - 1) + 0 }; stel t = "tekst" + ""; [diep(t, %d), "lit", t, 4.5]' % r)
         out.append('functie geef(x, n) { als n < 1 { antwoord "klaar" }; geef(x, n - 1) }; geef(2.5 + 0.0, %d)' % r)
+    return out
+
+
+HASH_COLLIDING_NAMES = {"fnv1a": [["zhphds", "zwlpipq"], ["wuqn", "cfzdoa"], ["wzaikb", "momvjy"], ["liquid", "costarring"], ["altarage", "zinke"]],
+    "fnv1": [["zmcuddi", "wfqbtrh"], ["suej", "kqmopa"], ["xmry", "jxmqjyi"]], "djb2": [["naoxcw", "hbtem"], ["mhlgo", "nfupey"], ["nnxkav", "ukgcl"]],
+    "djb2x": [["oqaaefs", "atyajah"], ["zzvmqom", "kamo"], ["spdwbvw", "zhkj"]], "sdbm": [["pamddoq", "oowu"], ["yoctbvs", "hlopouc"], ["witlrw", "gsjcmgn"]],
+    "java": [["sidswj", "twxrumm"], ["ygdvqpz", "gssqbs"], ["zsnlmyp", "tnre"], ["Aa", "BB"], ["AaAa", "BBBB"]], "crc32": [["efed", "nsrxctc"], ["ykwq", "bothohp"], ["qrvyzyw", "qndy"]],
+    "adler32": [["mbpub", "ybacw"], ["sdog", "nmlf"], ["sdog", "mmod"]], "fnv1a64lo": [["fvvjuq", "mvcrtp"], ["dhariy", "dwuyube"], ["tsoi", "npruv"]],
+    "fnv1a64fold": [["smncpcf", "axciecf"], ["uvxfe", "qfjahpi"], ["ruhidcs", "nshef"]],
+    "prefix/length": [["teller_een", "teller_twee"], ["abcdefgh1", "abcdefgh2"], ["x" * 40 + "a", "x" * 40 + "b"], ["naam", "Naam"], ["a_b", "ab_"], ["e\u0301", "\u00e9"]]}
+
+
+def colliding_name_programs():
+    """identifiers are told apart by their FULL SPELLING (round 11): pairs of names that collide under the usual 32-bit string hashes
+    (FNV-1/1a, djb2, sdbm, Java, CRC-32, Adler-32, folded 64-bit FNV), that share long prefixes, differ in case or only in the last
+    character, or are canonically equivalent Unicode spellings - a symbol table keyed by a hash, a prefix or a normalised form merges them"""
+    out = []
+    for kind, pairs in HASH_COLLIDING_NAMES.items():
+        for a, b in pairs:
+            for x, y in ((a, b), (b, a)):
+                out.append("stel %s = 1; %s" % (x, y))
+                out.append("stel %s = 1; stel %s = 2; [%s, %s]" % (x, y, x, y))
+                out.append("stel %s = 1; { stel %s = 2; %s = 3 }; %s" % (x, y, y, x))
+                out.append("stel %s = 1; functie(%s) { %s }(2)" % (x, y, x))
+                out.append("functie %s() { 1 }; functie %s() { 2 }; [%s(), %s()]" % (x, y, x, y))
+                out.append("stel %s = 1; functie f() { %s }; f()" % (x, y))
+    return out
+
+
+def backslash_wide_programs():
+    """a backslash directly before a character of ANY width inside a text literal (round 11): an unknown escape is kept as written,
+    whatever the next character is - 1 to 4 bytes, the boundary code points, combining marks; also at the end, doubled, after a
+    known escape, and in comments"""
+    wide = ["é", "ß", "Ü", "€", "日", "😀", "\u0080", "\u07ff", "\u0800", "\uffff", "\U00010000", "\U0010ffff", "\u0301", "q", "0", " "]
+    out = []
+    for c in wide:
+        for tpl in ['"\\%s"', '"a\\%s"', '"\\%sb"', '"\\\\%s"', '"\\n\\%s"', '"\\%s\\%s"', '"C:\\%sbung\\map"', '"%s\\"x', '1 // \\%s\n+ 2']:
+            lit = tpl.replace("%s", c)
+            if lit.startswith('"') and lit.endswith('"'):
+                out.append("stel s = %s; [lengte(s), s, s[0], s[-1]]" % lit)
+            out.append(lit)
+    return out
+
+
+def float_alias_programs():
+    """numbers are VALUES: a float reached through two names is not changed through the other one (round 11): a computed float (not a
+    literal) aliased by a second variable, a list slot, a parameter, a global read inside a function - then `a = a OP y` / `a OP= y` in
+    every operator, in loops, through calls; the alias keeps the old value"""
+    out = []
+    for op in ["+", "-", "*", "/"]:
+        for upd in ("a = a %s 2.0" % op, "a %s= 2.0" % op, "a = a %s b" % op, "a = (a %s 1.5) %s 1.0" % (op, op)):
+            out.append("stel a = 0.5 + 1.0; stel b = a; %s; [a, b, b == 1.5]" % upd)
+            out.append("stel a = 0.5 + 1.0; stel l = [a, 7]; %s; [a, l, l[0] == 1.5]" % upd.replace(" b", " l[0]"))
+            out.append("stel g = 0.25 * 6.0; functie f(a) { stel b = 1.0; %s; a }; [f(g), g, g == 1.5]" % upd)
+            out.append("functie mk() { 0.5 + 1.0 }; stel a = mk(); stel b = a; stel i = 0; zolang i < 3 { i += 1; %s }; [a, b]" % upd)
+    out.append("stel a = 1.0 / 3.0; stel b = a; stel t = a + (a = a + 1.0); [a, b, t]")
+    out.append("stel s = 0.0 + 0.0; stel keep = []; stel i = 0; zolang i < 4 { i += 1; keep = [keep, s]; s += 0.5 }; [keep, s]")
+    out.append("functie acc(x, n) { als n < 1 { antwoord x }; stel y = x; x = x + 1.0; [acc(x, n - 1), y] }; acc(0.5 + 0.5, 3)")
     return out
